@@ -80,6 +80,7 @@ class Exec:
         self.round_terms = []  # occurrences of round4 for axiom instantiation
         self.pow_terms = []
         self.mul_terms = []
+        self.sum_terms = []
 
     # ------------------------------------------------------------------ sinks
     def push_frame(self, **kinds):
@@ -232,14 +233,50 @@ class Exec:
             if self.pure or st.feasible(cont):
                 raise Unsupported("== between two containers (deep equality)", node)
         return z3.simplify(
-            z3.If(z3.And(Z.is_num(a), Z.is_num(b)), Z.num(a) == Z.num(b),
-                  z3.And(a == b, z3.Not(Val.is_nan(a)))))
+            z3.If(z3.And(Z.is_num(a), Z.is_num(b)), self.num_cmp(a, b, lambda x, y: x == y),
+                  z3.And(a == b, z3.Not(Z.is_nan(a)))))
+
+    def num_cmp(self, a, b, rel):
+        """numeric comparison: on integers when both sides are (syntactically) int-like, on reals otherwise"""
+        both_int = z3.simplify(z3.And(Z.is_intlike(a), Z.is_intlike(b)))
+        if z3.is_true(both_int):
+            return rel(Z.ival(a), Z.ival(b))
+        if z3.is_false(both_int):
+            return rel(Z.num(a), Z.num(b))
+        return z3.If(both_int, rel(Z.ival(a), Z.ival(b)), rel(Z.num(a), Z.num(b)))
 
     def num_result(self, a, b, fi, fr):
         """int op int -> int, otherwise real"""
         return z3.simplify(z3.If(z3.And(Z.is_intlike(a), Z.is_intlike(b)),
                                  Z.mk_i(fi(Z.ival(a), Z.ival(b))),
                                  Z.mk_r(fr(Z.num(a), Z.num(b)))))
+
+    CTORS = ('none', 'b', 'i', 'r', 's', 'ref', 'pinf', 'ninf', 'nan', 'cls', 'fn')
+
+    def narrow(self, st, v, numeric_only=False):
+        """if the path condition fixes the constructor of v, return v in constructor form (i(iv v), r(rv v), ...):
+        later tag tests then simplify syntactically instead of piling up If-chains"""
+        if isinstance(v, (VTuple, Closure)) or self.spec or not z3.is_expr(v) or v.sort() != Val:
+            return v
+        sv = z3.simplify(v)
+        if z3.is_app(sv) and sv.decl().name() in self.CTORS and sv.decl().name() != 'if':
+            if sv.num_args() == 0 or not (z3.is_app(sv) and sv.decl().name() == 'if'):
+                if sv.decl().name() in self.CTORS:
+                    return sv
+        key = v.get_id()
+        cache = st.meta.get('_narrow')
+        if cache is not None and key in cache:
+            return cache[key]
+        tests = [(Z.is_i, lambda x: Z.mk_i(Z.iv(x))), (Z.is_r, lambda x: Z.mk_r(Z.rv(x))),
+                 (Val.is_pinf, lambda x: Z.PINF), (Val.is_ninf, lambda x: Z.NINF), (Z.is_b, lambda x: Z.mk_b(Z.bv(x)))]
+        if not numeric_only:
+            tests += [(Z.is_s, lambda x: Z.mk_s(Z.sv(x))), (Z.is_ref, lambda x: Z.mk_ref(Z.addr(x))), (Z.is_none, lambda x: Z.NONE)]
+        out = v
+        for pred, mk in tests:
+            if st.implies(pred(v)):
+                out = mk(v)
+                break
+        return out
 
     def real_mul(self, x, y):
         """real multiplication; abstracted to MUL(x, y) when the contract asks for it and neither side is a literal"""
@@ -266,14 +303,14 @@ class Exec:
     def lt(self, a, b, strict=True):
         """ordering on numbers extended by +-inf; strings lexicographic"""
         fin = z3.And(Z.is_num(a), Z.is_num(b))
-        cmpf = (Z.num(a) < Z.num(b)) if strict else (Z.num(a) <= Z.num(b))
-        ext = z3.And(z3.Or(Z.is_num(a), Val.is_pinf(a), Val.is_ninf(a)),
-                     z3.Or(Z.is_num(b), Val.is_pinf(b), Val.is_ninf(b)))
+        cmpf = self.num_cmp(a, b, (lambda x, y: x < y) if strict else (lambda x, y: x <= y))
+        ext = z3.And(z3.Or(Z.is_num(a), Z.is_pinf(a), Z.is_ninf(a)),
+                     z3.Or(Z.is_num(b), Z.is_pinf(b), Z.is_ninf(b)))
         if strict:
-            inf_case = z3.Or(z3.And(Val.is_ninf(a), z3.Not(Val.is_ninf(b))),
-                             z3.And(Val.is_pinf(b), z3.Not(Val.is_pinf(a))))
+            inf_case = z3.Or(z3.And(Z.is_ninf(a), z3.Not(Z.is_ninf(b))),
+                             z3.And(Z.is_pinf(b), z3.Not(Z.is_pinf(a))))
         else:
-            inf_case = z3.Or(Val.is_ninf(a), Val.is_pinf(b))
+            inf_case = z3.Or(Z.is_ninf(a), Z.is_pinf(b))
         strs = z3.And(Z.is_s(a), Z.is_s(b))
         scmp = (Z.sv(a) < Z.sv(b)) if strict else (Z.sv(a) <= Z.sv(b))
         return z3.simplify(z3.If(fin, cmpf, z3.If(ext, inf_case, z3.If(strs, scmp, z3.BoolVal(False)))))
@@ -424,6 +461,8 @@ class Exec:
     def ev_UnaryOp(self, node, st):
         out = []
         for (s, v) in self.ev(node.operand, st):
+            if not (self.spec or self.pure) and not isinstance(node.op, ast.Not):
+                v = self.narrow(s, v, numeric_only=True)
             if isinstance(node.op, ast.Not):
                 out.append((s, Z.mk_b(z3.Not(self.truth(s, v)))))
             elif isinstance(node.op, ast.USub):
@@ -431,7 +470,7 @@ class Exec:
                 if s2 is not None:
                     r = z3.If(Z.is_intlike(v), Z.mk_i(-Z.ival(v)),
                               z3.If(Z.is_r(v), Z.mk_r(-Z.rv(v)),
-                                    z3.If(Val.is_pinf(v), Z.NINF, z3.If(Val.is_ninf(v), Z.PINF, Z.NAN))))
+                                    z3.If(Z.is_pinf(v), Z.NINF, z3.If(Z.is_ninf(v), Z.PINF, Z.NAN))))
                     out.append((s2, z3.simplify(r)))
             elif isinstance(node.op, ast.UAdd):
                 out.append((s, v))
@@ -524,6 +563,8 @@ class Exec:
         if isinstance(op, (ast.Lt, ast.LtE, ast.Gt, ast.GtE)):
             if isinstance(a, VTuple) or isinstance(b, VTuple):
                 raise Unsupported("ordering on tuple", node)
+            if not (self.spec or self.pure):
+                a, b = self.narrow(st, a, True), self.narrow(st, b, True)
             st2 = self.guard(st, self.orderable(a, b), 'TypeError', 'unorderable operands')
             if st2 is None:
                 return None
@@ -577,8 +618,13 @@ class Exec:
     def binop(self, st, op, a, b, node):
         if isinstance(a, VTuple) or isinstance(b, VTuple):
             raise Unsupported("arithmetic on tuple", node)
+        if not (self.spec or self.pure):
+            a, b = self.narrow(st, a), self.narrow(st, b)
         bothnum = z3.And(Z.is_num(a), Z.is_num(b))
         if isinstance(op, ast.Add):
+            if self.spec and not z3.is_true(z3.simplify(z3.Or(Z.is_s(a), Z.is_s(b)))):
+                # specifications are total: + is numeric addition unless an operand is syntactically a string
+                return [(st, self.num_result(a, b, lambda x, y: x + y, lambda x, y: x + y))]
             if self.known(st, bothnum):
                 return [(st, self.num_result(a, b, lambda x, y: x + y, lambda x, y: x + y))]
             if self.known(st, z3.And(Z.is_s(a), Z.is_s(b))):
@@ -1024,7 +1070,7 @@ class Exec:
             res_f = self.ex(node.orelse, st_f) if st_f is not None else None
             quiet = quiet_t and marks == self._sink_marks()
             if quiet and res_t is not None and res_f is not None and len(res_t) == 1 and len(res_f) == 1 \
-                    and not (self.pure or self.spec):
+                    and not (self.pure or self.spec) and getattr(self.c, 'merge', True):
                 m = self.merge_states(s, z3.simplify(cond), res_t[0], res_f[0])
                 if m is not None:
                     out.append(m)
